@@ -411,7 +411,39 @@ def one(ctx, i):
                     'stopped_instants': t1.n, 'first_true_index': kstar, 'value_at_stop_si': ser[t1.n - 1], 'value_before_si': ser[t1.n - 2]})
 
 
+def foreign_sensor(ctx, i):
+    """the sensor of the stop condition watches an element of ANOTHER model (a test rig whose shaft is read while this model
+    runs): the rule is the same -- the run ends at the first computed instant at which reading <op> threshold is true"""
+    rng = ctx.rng('foreign', i)
+    case = {'kind': 'foreign', 'index': i}
+    spec = GEN.gen_scenario(rng, dict(p_continue=0.0, p_reset=0.0, n_lo=8, n_hi=30, p_selflock=0.0, p_noload_start=0.0))
+    other = GEN.gen_scenario(rng, dict(_nested=True, p_continue=0.0, p_reset=0.0, n_lo=4, n_hi=8, max_stages=2))
+    n = spec['_ref']['n']
+    try:
+        b = B.build(spec, hooks=False)
+        rig = B.build(other, hooks=False)
+        un, ut, se = B.g().un, B.g().ut, B.g().se
+        rig.last.angular_speed = un.AngularSpeed(5, 'rad/s')
+        true_now = rng.random() < 0.6
+        thr = un.AngularSpeed(30, 'rpm') if true_now else un.AngularSpeed(300, 'rpm')          # 5 rad/s = 47.7 rpm
+        cond = ut.StopCondition(sensor=se.Tachometer(target=rig.last), threshold=thr, operator=ut.StopCondition.greater_than)
+        dt, T = B.mkq(spec['schedule'][0]['dt']), B.mkq(spec['schedule'][0]['T'])
+        b.solver.run(time_discretization=dt, simulation_time=T, stop_condition=cond)
+    except Exception as ex:
+        ctx.violation('C16:run-with-a-foreign-sensor-raised', {'exception': type(ex).__name__ + ': ' + str(ex)[:200]}, case)
+        return
+    ctx.count('cases')
+    ctx.count('evaluations')
+    ctx.count('stop_conditions_on_a_foreign_element')
+    got, want = len(b.pt.time), (2 if true_now else n + 1)
+    if got != want:
+        ctx.violation('C16:wrong-stop-instant', {'sensor': 'tachometer on an element of another model, reading 5 rad/s', 'threshold': [thr.value, thr.unit], 'operator': 'gt',
+                                                 'recorded_instants': got, 'expected': want}, case)
+
+
 def shard(ctx):
+    for i in ctx.my_cases(48 if ctx.tier == 'quick' else 600):
+        foreign_sensor(ctx, i)
     for i in ctx.my_cases(n_cases(ctx.tier)):
         one(ctx, i)
     for i in ctx.my_cases(n_cases(ctx.tier) // 4):
@@ -421,4 +453,4 @@ def shard(ctx):
 
 
 def replay(ctx, case):
-    {'twostage': two_stage, 'resetreuse': reset_reuse}.get(case.get('kind'), one)(ctx, case['index'])
+    {'twostage': two_stage, 'resetreuse': reset_reuse, 'foreign': foreign_sensor}.get(case.get('kind'), one)(ctx, case['index'])
